@@ -650,6 +650,9 @@ def k_outcomes(ctx, var: Variants):
         if (mu[1] == "t") != (want_fail is not None):
             run.broken("K1 failure-class predicate (any_failure) disagrees with the harness statement", json.dumps(replay)[:1500])
         prop_fails = (want_fail is not None and real[0] != "introspection-error") or (want_fail is None and real[0] != "schema")
+        # the Coq guard g_c19_errors is false exactly on the inputs where the two model variants differ
+        if (mu[2] == "f") != (mu[0] != mf[0]):
+            run.broken("K1 guard g_c19_errors is not the class on which the variants differ", json.dumps(replay)[:1500])
         if mu != mf:
             if same(mu):
                 var.note("errors", False)
